@@ -153,6 +153,9 @@ func c02Random(c *Case) {
 	}
 	env := &xgen.Env{Doc: d, Ctx: ctx, Names: namesIn(d)}
 	e := g.PredPath(1+g.Intn(2), env)
+	if c.expensive(e, d) {
+		return
+	}
 	src := xref.Render(e)
 	det := func() map[string]interface{} { return docDetail(d, ctx) }
 	want, ok, why := refNodeSet(e, xref.NewCtx(ctx))
